@@ -331,6 +331,11 @@ def run(ctx):
             site.pages[rng.choice(leaves)] = {'kind': 'flaky'}
         conc = rng.choice([1, 2, 3])
         total += explore_site(ctx, site, opts, conc, rng.randrange(1 << 30)) or 0
+    # a long input list (committed in batches of 1000 at start-up), one early input on a second host: a kill between
+    # two batches, and the rerun must still know every host the user named
+    explore_site(ctx, big_input_site(), {'recursive': False, 'level': None, 'page_requisites': False, 'no_parent': False,
+                                         'accept_regex': None, 'reject_regex': None}, 2, 7,
+                 only=lambda kp: kp[0] == 'commit' and kp[1] in (3, 4, 5, 6))
     stream_ftp_order(ctx, ctx.scale(40, 600))
     ctx.exhaustive = False
     ctx.note('kill_points_total', total)
@@ -405,6 +410,7 @@ def big_input_site(n=1100):
     site = cc.Site()
     site.pages['/'] = {'kind': 'html', 'links': [('/u0', False)]}
     site.inputs = n
+    site.other_input = True        # one of the inputs of the first batch is on a second host
     return site
 
 
